@@ -363,7 +363,7 @@ pub fn run(tier: &str) -> i32 {
     }
     let findings: Mutex<Vec<Finding>> = Mutex::new(vec![]);
     let prints: Mutex<BTreeSet<u64>> = Mutex::new(BTreeSet::new());
-    let (done, to) = par_for(cases.len(), threads(), deadline, |ci| {
+    let (done, to) = crate::par::par_for_core(cases.len(), dom.len() + 1, threads(), deadline, |ci| {
         let c = &cases[ci];
         let setters: Vec<&OptVal> = c.iter().map(|i| &dom[*i]).collect();
         match run_case(&setters) {
